@@ -16,7 +16,21 @@ import vt
 import zonecheck
 
 
+SIX_A_YEAR = (
+    "Rule\tPA\t1990\tmax\t-\tFeb\tSun>=8\t2:00\t1:00\tD\n"
+    "Rule\tPA\t1990\tmax\t-\tApr\tSun>=8\t2:00\t0\tS\n"
+    "Rule\tPA\t1990\tmax\t-\tJun\tSun>=8\t2:00\t1:00\tD\n"
+    "Rule\tPA\t1990\tmax\t-\tAug\tSun>=8\t2:00\t0\tS\n"
+    "Rule\tPA\t1990\tmax\t-\tOct\tSun>=8\t2:00\t1:00\tD\n"
+    "Rule\tPA\t1990\tmax\t-\tDec\tSun>=8\t2:00\t0\tS\n"
+    "Zone\tGen/Zone0\t3:00\t-\tLMT\t1980\n"
+    "\t\t\t3:00\tPA\tA%sT\n")
+
 KNOWN_PROBES = [
+    # six rule transitions a year: more than either processor can hold. Extended: the compiler must refuse the zone (or
+    # produce a correct one); basic: listed known finding
+    ("capacity:six-transitions-a-year:extended", "extended", SIX_A_YEAR),
+    ("capacity:six-transitions-a-year:basic", "basic", SIX_A_YEAR),
     ("basic-era-change-into-policy", "basic",
      "Rule\tPA\t1992\t2022\t-\tMar\t15\t1:00w\t2:00\tS\n"
      "Rule\tPA\t1992\t2022\t-\tOct\tlastThu\t2:00w\t0\t-\n"
